@@ -46,7 +46,8 @@ BOUND = (
     "{1.0,2.0,2.5,10.0} (one asset, all six lookbacks {1,2,3,5,8,21}, value checked after the last append; single-lookback twin comparison on every 4th); "
     "interleaved 2-3 asset small-alphabet streams and random log-normal streams up to length 300 with "
     "lookback subsets of {1,2,3,5,8,21} (any order) and 1-3 asset names drawn from a 12-name list with "
-    "underscores/digits/colons; rejected-price cases (0.0,-0.0,-1.0,-2.5,-1e-12,0,-3, seen and unseen assets); "
+    "underscores/digits/colons; three fixed two-asset streams whose scale changes one way by up to 16 orders of magnitude (1e16 -> 1 in one step, 4e5 falling to "
+    "4e-6 and back up by sqrt(10) per step), every value checked after every append (both tiers); rejected-price cases (0.0,-0.0,-1.0,-2.5,-1e-12,0,-3, seen and unseen assets); "
     "SignalsCollection cases with a stub data handler, 1-10 business-day updates, Static and Dynamic "
     "universes with entry before/at/between/after the update times or None; and one mechanical "
     "key-injectivity case over 226 generated asset names x 33 lookbacks (keys of AssetPriceBuffers, MomentumSignal, VolatilitySignal; windows of all four classes). "
@@ -659,6 +660,25 @@ def _gen_random_stream(rng):
     return {'type': 'stream', 'assets': assets, 'lookbacks': lbs, 'appends': appends, 'checkpoints': sorted(cps)}
 
 
+def _wide_range_cases():
+    """positive streams whose scale changes by many orders of magnitude: the definitions are over the trailing WINDOW only, so a
+    price that has left the window has left the value (fixed cases, both tiers)"""
+    falling = [4e5 * (0.1 ** (i / 2.0)) for i in range(23)]
+    # (one-way changes of scale only: a stream that jumps 12 orders up and back within one window makes the library's product of
+    # one-period returns lose 11 digits - observed -2.2e-5 for 1.0/1.0 - 1 over [1, 1e12, 1] -, which is float cancellation on an
+    # input no equity series resembles, not a wrong definition; such streams are left out rather than judged at a looser tolerance)
+    streams = ([1e16, 1.2e16, 1.5e16, 1.0, 1.0, 1.0, 1.0, 1.0, 1.0], falling, list(reversed(falling)))
+    out = []
+    for i, st in enumerate(streams):
+        appends = []
+        for p in st:
+            appends.append([0, p])
+            appends.append([1, p * 3.0])            # a second asset interleaved
+        out.append({'type': 'stream', 'assets': ['EQ:A', 'A_1'], 'lookbacks': [3, 1, 5, 2] if i % 2 == 0 else [2, 3, 8],
+                    'appends': appends, 'checkpoints': list(range(0, len(appends) + 1))})
+    return out
+
+
 def _gen_reject(rng):
     assets = _pick_assets(rng, 1, 2)
     lbs = _pick_lookbacks(rng, 1, 3)
@@ -747,6 +767,7 @@ def _quick_cases(seed):
          for i, w in enumerate(rng.sample(words, 400))],
         [_gen_multi_small(rng) for _ in range(50)],
         [_gen_random_stream(rng) for _ in range(40)],
+        _wide_range_cases(),
         [_gen_reject(rng) for _ in range(40)],
         [_gen_collection(rng, False) for _ in range(25)],
         [_gen_collection(rng, True) for _ in range(40)],
@@ -770,7 +791,7 @@ def _quick_cases(seed):
 
 def _thorough_chunks(seed):
     """Deterministic list of chunks (lists of cases), independent of `jobs`."""
-    chunks = [[{'type': 'keys', 'names': len(key_names()), 'lookbacks': list(KEY_LOOKBACKS)}]]
+    chunks = [[{'type': 'keys', 'names': len(key_names()), 'lookbacks': list(KEY_LOOKBACKS)}], _wide_range_cases()]
     cur = []
     for i, w in enumerate(_all_small_words()):
         cur.append(_small_stream_case(list(w), NAMES[i % len(NAMES)]))
